@@ -24,9 +24,31 @@ impl<U, V> NotEquals<U, V> {
 }
 
 impl<U: View, V: View> Prune for NotEquals<U, V> {
-    fn prune(&self, _ctx: &mut Context) -> Option<()> {
-        // This propagator is not used - the ne() constraint is implemented
-        // through alternative mechanisms. This is a no-op placeholder.
+    fn prune(&self, ctx: &mut Context) -> Option<()> {
+        use crate::variables::Val;
+        // Bounds reasoning on integer operands: once one side is fixed its value is cut off the
+        // other side's bounds, and two sides fixed to the same value violate the constraint.
+        // (Float operands are left to the tolerance-aware float propagators.)
+        let (x_min, x_max) = (self.x.min(ctx), self.x.max(ctx));
+        let (y_min, y_max) = (self.y.min(ctx), self.y.max(ctx));
+        if let (Val::ValI(x_lo), Val::ValI(x_hi), Val::ValI(y_lo), Val::ValI(y_hi)) = (x_min, x_max, y_min, y_max) {
+            if x_lo == x_hi && y_lo == y_hi {
+                return if x_lo == y_lo { None } else { Some(()) };
+            }
+            if x_lo == x_hi {
+                if y_lo == x_lo {
+                    self.y.try_set_min(Val::ValI(y_lo + 1), ctx)?;
+                } else if y_hi == x_lo {
+                    self.y.try_set_max(Val::ValI(y_hi - 1), ctx)?;
+                }
+            } else if y_lo == y_hi {
+                if x_lo == y_lo {
+                    self.x.try_set_min(Val::ValI(x_lo + 1), ctx)?;
+                } else if x_hi == y_lo {
+                    self.x.try_set_max(Val::ValI(x_hi - 1), ctx)?;
+                }
+            }
+        }
         Some(())
     }
 }
